@@ -3,7 +3,7 @@
 # scratch worktree of /repo's HEAD (never in /repo).  One line per seed: caught / MISSED / patch does not apply.
 # Maintenance only.  VERIF_SEED is passed through.
 cd "$(dirname "$0")/.."
-WT=/tmp/seedmatrix-wt
+WT=${SEEDMATRIX_WT:-/tmp/seedmatrix-wt}
 git -C /repo worktree remove --force $WT 2>/dev/null
 git -C /repo worktree add --detach $WT HEAD -q || exit 2
 export VERIF_EVIDENCE_DIR=/tmp/verif-seed-evidence
